@@ -1107,3 +1107,44 @@ def g_r9_same_section(p: Project, rep: Report):
         return
     ok = rkeys == wkeys
     rep.check("G-R9", "merge_config/mk_server_cfg:same-section", ok, f"merge_config reads section {sorted(rkeys)} while mk_server_cfg writes section {sorted(wkeys)}: a nickname for which the two differ (another section whose name matches after the transformation, e.g. [Power] of the FI database for `power`) is saved in one place and read from another" if not ok else "", gloc(p, reads[0]))
+
+
+def g_r10_only_the_parser_writes(p: Project, rep: Report):
+    """what reaches the user's file is what the configuration parser holds - where the password never is"""
+    rep.rule("G-R10", "the password is never stored: the only thing write_config() writes into the user's file is USERCFG.write(<file>), whose sections are filled by mk_server_cfg() from the CONFIGURABLE options (which exclude the password, G-R3).  Any other write to that file that derives from the option mapping (a header comment listing the command line, a dump of args) can carry --password")
+    wc0 = _fn(p, "write_config")
+    wc = flat(p, OFXGET, wc0)
+    argsname = params_of(wc0)[0]
+    files = set()
+    for w_ in [x for x in ast.walk(wc) if isinstance(x, ast.With)]:
+        for it in w_.items:
+            ce = it.context_expr
+            if isinstance(ce, ast.Call) and (dotted(ce.func) or "").split(".")[-1] == "open" and isinstance(it.optional_vars, ast.Name):
+                files.add(it.optional_vars.id)
+    if not files:
+        rep.note("G-R10 undecided: write_config() opens no file in a with-statement")
+        return
+    ex = Expander(wc)
+    bad = None
+    n = 0
+    for c in [x for x in ast.walk(wc) if isinstance(x, ast.Call)]:
+        into_file = None
+        if isinstance(c.func, ast.Attribute) and c.func.attr in ("write", "writelines") and isinstance(c.func.value, ast.Name) and c.func.value.id in files:
+            into_file = c.args
+        elif isinstance(c.func, ast.Name) and c.func.id == "print" and any(k.arg == "file" and isinstance(k.value, ast.Name) and k.value.id in files for k in c.keywords):
+            into_file = c.args
+        elif isinstance(c.func, ast.Attribute) and c.func.attr in ("dump", "write") and any(isinstance(a, ast.Name) and a.id in files for a in c.args):
+            # <something>.write(f) / json.dump(obj, f): fine for USERCFG, anything else is looked at
+            if text(c.func.value) == "USERCFG":
+                n += 1
+                continue
+            into_file = [a for a in c.args if not (isinstance(a, ast.Name) and a.id in files)] + [c.func.value]
+        if into_file is None:
+            continue
+        n += 1
+        for a in into_file:
+            names = {x.id for x in ast.walk(ex.x(a)) if isinstance(x, ast.Name)}
+            if argsname in names:
+                bad = (c, text(a))
+    rep.check("G-R10", "write_config:only-USERCFG-reaches-the-file", bad is None, f"write_config() also writes {bad[1][:60]} into the user's file, computed from the option mapping `{argsname}` without going through the CONFIGURABLE filter: --password given on the command line ends up on disk" if bad else "", gloc(p, bad[0] if bad else wc0))
+    rep.unit("writes_into_user_file", n)
